@@ -43,35 +43,36 @@ def qp_active_set(H: np.ndarray, u: np.ndarray):
     return best[2], best[3], best[0]
 
 
-def min_norm_hull(G: np.ndarray):
-    """min alpha^T G alpha over the simplex by support enumeration. Returns (value, alpha)."""
-    m = G.shape[0]
+def min_norm_hull(J: np.ndarray):
+    """Minimum-norm point of the convex hull of the rows of J, by support enumeration.
+
+    For every support S the minimiser over the affine hull of the rows J[S] is computed directly on the vectors
+    (least squares on the differences, no Gramian, so the conditioning is not squared); it is a candidate when its
+    barycentric coordinates are non-negative. The optimum lies in the relative interior of some face, where it
+    coincides with that face's affine minimiser, so the best candidate is the optimum. Returns (norm^2, alpha).
+    """
+    m = J.shape[0]
     best = (float("inf"), None)
-    gs = max(1.0, float(np.abs(G).max(initial=0.0)))
     for r in range(1, m + 1):
         for S in itertools.combinations(range(m), r):
-            S = list(S)
-            k = len(S)
-            K = np.zeros((k + 1, k + 1))
-            K[:k, :k] = G[np.ix_(S, S)]
-            K[:k, k] = 1.0
-            K[k, :k] = 1.0
-            rhs = np.zeros(k + 1)
-            rhs[k] = 1.0
-            sol, *_ = np.linalg.lstsq(K, rhs, rcond=None)
-            a = sol[:k]
-            if np.abs(K @ sol - rhs).max() > 1e-9 * gs:
-                continue
+            P = J[list(S)]
+            if r == 1:
+                a = np.ones(1)
+            else:
+                D = (P[1:] - P[0]).T  # n x (r-1)
+                z, *_ = np.linalg.lstsq(D, -P[0], rcond=None)
+                a = np.concatenate([[1.0 - z.sum()], z])
             if (a < -1e-12).any():
                 continue
             a = np.clip(a, 0.0, None)
             a = a / a.sum()
-            alpha = np.zeros(m)
-            alpha[S] = a
-            val = float(alpha @ G @ alpha)
+            x = a @ P
+            val = float(x @ x)
             if val < best[0]:
+                alpha = np.zeros(m)
+                alpha[list(S)] = a
                 best = (val, alpha)
-    return max(best[0], 0.0), best[1]
+    return best
 
 
 def trimmed_mean(J: np.ndarray, b: int) -> np.ndarray:
